@@ -13,8 +13,8 @@ C15 — Euclidean-domain operations: property theorems (about the code model `Yu
 * units: `is_unit a ↔ inv a ≠ none`, `inv a = some u → a·u = 1` for Z, Z[i], Z[ω], F_p (p = 2,3,5,7);
 * F_p (p = 2,3,5,7): all of the above by exhaustive evaluation of the model.
 * Q (canonical fractions): units, inverse, normalisation, gcd.
-Not proved here (checked by the differential run only): Bezout/lcm in Q, F[x], homogeneous polynomials
-(see props/C15.json).
+Division identity, Bezout, lcm for Q and everything for F_p with an arbitrary prime p: Props/C15Fields.lean;
+F[x] and homogeneous polynomials: Props/C15Poly.lean (see props/C15.json for what remains).
 -/
 namespace Yuiv.C15
 open Yuiv
